@@ -8,6 +8,7 @@ B (bounded, the deciding tier for what runs through the DFA interpreter and the 
       call, no reply, no tag change for the unfinished frame.
 P: input-source classes (peeking / chaining / remembering) against the stream view — see contracts below.
 """
+from .util import distinct_keys
 import random
 import socket
 import struct
@@ -277,7 +278,7 @@ def bounded(tier, seed):
                  'replies %d request-calls %d tags %r thread-alive %r' % (len(got['replies']), got['calls'].count('request'), got['tags'], got['alive']),
                  '%d complete frames: that many calls and replies, tags %r, handler ended' % (complete, exp_tags))
     ev += client_side(tier, rng, viol, distinct)
-    return dict(evaluations=ev, distinct_nontrivial=len(distinct),
+    return dict(evaluations=ev, distinct_nontrivial=len(distinct), distinct_keys=distinct_keys(distinct),
                 rule='reference-encoded streams (Register + 1..3 SendRRData requests: Read/Write Tag, Read Tag Fragmented, Multiple Service Packet); '
                      '(1) real enip_machine fed like enip_srv_tcp: two-way splits (all in thorough, sampled + boundaries in quick), byte-at-a-time, seeded k-way; '
                      '(2) real enip_srv_tcp over a socket pair with a counting wrapper of the real logix.process: same replies and tag effects, coalesced frames; '
